@@ -97,7 +97,7 @@ func GenWorld(r *Rng, s WorldSpec) World {
 			}
 		case "prefix":
 			c.Labels = map[string]string{}
-			sets := [][2]string{{"a", "bc"}, {"ab", "c"}, {"x", "1"}, {"y", "2"}, {"x", "12"}, {"a", "b"}, {"b", "a"}, {"tier", "a"}, {"a", "tier"}, {"abc", ""}, {"weight", "3"}, {"weight", "7"}}
+			sets := [][2]string{{"a", "bc"}, {"ab", "c"}, {"x", "1"}, {"y", "2"}, {"x", "12"}, {"a", "b"}, {"b", "a"}, {"tier", "a"}, {"a", "tier"}, {"abc", ""}, {"weight", "3"}, {"weight", "7"}, {"a", "1"}, {"b", "2"}, {"a", "1,b=2"}, {"a", "1\",b=\"2"}}
 			for k := cr.Intn(4); k > 0; k-- {
 				kv := Pick(cr, sets)
 				c.Labels[kv[0]] = kv[1]
@@ -174,6 +174,8 @@ func genMsg(r *Rng, s WorldSpec, ci, j int) []byte {
 		return []byte(constLines[r.Intn(len(constLines))])
 	case "token":
 		return []byte(token)
+	case "kv":
+		return []byte(Pick(r, []string{"a=bc", "ab=c", "x=1 y=2", "x=12", "a=b", "b=a", "a=1,b=2", "a=1 b=2", "abc=", "a=bc k=1", "ab=c k=1"}))
 	case "structured":
 		level := []string{"info", "warn", "error"}[r.Intn(3)]
 		k := r.Intn(5)
